@@ -144,6 +144,17 @@ impl<'a, T: 'a + IO> Interpreter<'a, T> {
                 self.current += 1;
                 let loop_start = self.current;
 
+                // loop's own block must come first, otherwise skip_block would find some later block
+                // and several loops could end up sharing one closing continue
+                match self.statements.get(loop_start) {
+                    Some(parser::Stmt::BlockStart(_, _)) => {},
+                    _ => {
+                        self.current = loop_start - 1;
+                        let (line, file_name) = self.extract_err_meta_stmt(self.current)?;
+                        return Err(RuntimeError(line, file_name, "Expected '{' after loop".to_string()));
+                    },
+                }
+
                 // finding where this loop ends, closing continue comes right after loop's block
                 self.skip_block()?;
                 let loop_end = match self.statements.get(self.current) {
